@@ -42,6 +42,10 @@ func projectSubscriptionPrefix(project string) string {
 	return project + "/subscriptions/"
 }
 
+func projectSnapshotPrefix(project string) string {
+	return project + "/snapshots/"
+}
+
 func isValidTopicName(name string) bool {
 	// match projects/.../topics/...
 	segments := strings.Split(name, "/")
